@@ -177,3 +177,12 @@ PROPS["C20"] = {
     "level_note": "number of composing entries: 1-2 (quick), 1-3 (thorough) - shape-bounded; exponents unbounded; 'parsing recovers the joined units' is an argument over the token sequences (separators and trailing digits do not occur in atomic symbols) replayed natively by the derived_strings probe for up to 3 factors, not a solver obligation; Array str/repr not under contract",
     "trusted": ["pyvc token-level string model (pyvc/strparts.py)", "z3 5.1.0"],
 }
+
+USM = "barril.units.unit_system_manager:UnitSystemManager"
+PROPS["C17"] = {
+    "tasks": lambda tier: VP(USM + "#operations", 12),
+    "level": "proof",
+    "level_text": "UnitSystemManager and UnitSystem methods are executed from their real AST on manager states satisfying the invariant MI (every system stored under its own id, ids unique, current = None or a registered system, the manager's listener registered on exactly the current system) with symbolic ids, categories and units; callbacks follow an assumed contract of oop_ext's Callback with a ghost log of every notification. Proved for AddUnitSystem (with/without mapping, with/without template), RemoveUnitSystem (each registered system, unknown id), current = s / SetCurrent(None), UnitSystem.SetDefaultUnit / RemoveCategory on the current and on a non-current system, SetTemplateUnitSystemByUnitsMapping, ConvertToCurrent, ConvertScalarToCurrent, GetNewId: MI holds afterwards; a system added while none is current becomes current, otherwise the current one stays; removing the current system selects the first remaining one or none; a new system must cover the template's categories; each accepted call sends exactly the notifications the property names (on_current once per change of current system, on_unit_changed once per default-unit change of the current system and never for another system), with the right arguments; every system owns its mapping; a rejected call changes nothing (manager, systems, mappings, listeners) and notifies nobody; ConvertToCurrent returns conv(unit -> current default unit)(value) or the arguments unchanged; ConvertScalarToCurrent additionally keeps the category. By induction the invariant and the notification discipline hold for every history (A9).",
+    "level_note": "manager states with 0-2 registered systems, one mapping entry each (shape-bounded); public SetCurrent(x) with an unregistered system x is outside the contract (would break MI); oop_ext Callback semantics assumed (A10: Register idempotent per listener, Unregister of an absent listener is a no-op, a call invokes each listener once); UpdateObjects/Register of value objects (weak references) not modelled",
+    "trusted": STD_TRUSTED + ["oop_ext Callback/Singleton/interface decorators (A10), modelled in pyvc/callbacks.py"],
+}
